@@ -396,6 +396,17 @@ package lang
 //@ ghost $lastCell *Cell
 // The receiver bound on the function cell when the callee expression was looked up (C15).
 //@ ghost $recv *Value
+// callFunction (C08): whether/how the body ended and the return slot right after it.
+//@ ghost $bodyRan bool
+//@ ghost $bodyOut error
+//@ ghost $retVal *Value
+// evalStatement / drivers (C07, C02, C03): the most recent condition evaluation and body outcome.
+//@ ghost $lastTruthy bool
+//@ ghost $lastExprArg Expr
+//@ ghost $lastOut error
+//@ ghost $mark int
+//@ ghost $pendingFile bool
+//@ ghost $lastDecode error
 
 // AST well-formedness: the children the evaluator dereferences are present.  Proved where the
 // parser builds the nodes, assumed where the evaluator loads them (type invariants).
@@ -481,6 +492,7 @@ package lang
 //@   after Evaluator.evalExpr: $lastCell = ret0
 //@   after Evaluator.evalExpr: $recv = (ret1 == nil ? ret0.Value.Binding : $recv)
 //@   assert[C15] receiver-is-the-one-bound-at-lookup: arg2.Value.Binding == $recv @ Evaluator.callFunction
+//@   assert[C08,C09] operands-are-copied: arg2 @ Evaluator.evalExprList
 //@   assert[C19] first-match-wins: $nmatch == 0 @ Evaluator.evalCaseMatch
 //@   assert[C19] body-only-after-match: $nmatch == 1 @ Evaluator.evalStatement
 //@   ensures[C19] block-body-yields-null: err == nil && istype(expr, *ExprMatch) && $ranBlock ==> result0.Value.Tag == ValueNil && fresh(result0)
@@ -490,7 +502,7 @@ package lang
 //@   loop 2 invariant in-match-frame: evOK(e) && e.stackTop == $frame && $frame.parent == old(e.stackTop) && !$faulted && $nmatch == 1 && !$ranBlock
 //@   loop 3 invariant protocol: evInv(e, old(e.stackTop)) && obj.Obj != nil && *obj.Obj != nil
 
-//@ func Evaluator.evalStatement [C01,C08,C11]
+//@ func Evaluator.evalStatement [C01,C07,C08,C10,C11]
 //@   modifies valueHeap, e.stackTop, e.returnVal
 //@   requires evOK(e) && stmt != nil && !$faulted
 //@   updates $faulted, $out
@@ -498,16 +510,25 @@ package lang
 //@   ensures[C08] stack-restored: stackKept(e, old(e.stackTop), result)
 //@   ensures[C11] fault-latched: $faulted <==> isFault(result)
 //@   ensures evok: evOK(e)
+//@   init $lastOut = nil
+//@   after Evaluator.evalExpr: $lastTruthy = (ret1 == nil ? specTruthy(ret0.Value) : false)
+//@   after Evaluator.evalExpr: $lastExprArg = arg1
+//@   after Evaluator.evalStatement: $lastOut = ret0
+//@   assert[C07] if-branch-follows-its-condition: istype(stmt, *StatementIf) ==> $lastExprArg == as(stmt, *StatementIf).Expr && ((arg1 == as(stmt, *StatementIf).Body && $lastTruthy) || (arg1 == as(stmt, *StatementIf).ElseBody && !$lastTruthy)) @ Evaluator.evalStatement
+//@   assert[C07] while-body-follows-a-true-condition: istype(stmt, *StatementWhile) ==> arg1 == as(stmt, *StatementWhile).Body && $lastExprArg == as(stmt, *StatementWhile).Expr && $lastTruthy @ Evaluator.evalStatement
+//@   assert[C07] for-body-follows-a-true-condition: istype(stmt, *StatementFor) ==> arg1 == as(stmt, *StatementFor).Body && $lastExprArg == as(stmt, *StatementFor).Expr && $lastTruthy @ Evaluator.evalStatement
+//@   assert[C07] for-post-runs-only-after-a-completed-or-continued-iteration: istype(stmt, *StatementFor) && arg1 == as(stmt, *StatementFor).PostExpr && arg1 != as(stmt, *StatementFor).PreExpr && arg1 != as(stmt, *StatementFor).Expr ==> $lastOut == nil || $lastOut == errContinue @ Evaluator.evalExpr
+//@   assert[C07] loop-continues-only-after-a-completed-or-continued-iteration: (istype(stmt, *StatementWhile) || istype(stmt, *StatementFor)) ==> $lastOut == nil || $lastOut == errContinue @ Evaluator.evalExpr
 //@   loop 0 invariant protocol: evInv(e, old(e.stackTop))
 //@   loop 1 invariant protocol: evInv(e, old(e.stackTop))
-//@   loop 2 invariant protocol: evInv(e, old(e.stackTop))
-//@   loop 3 invariant protocol: evInv(e, old(e.stackTop))
+//@   loop 2 invariant protocol: evInv(e, old(e.stackTop)) && ($lastOut == nil || $lastOut == errContinue)
+//@   loop 3 invariant protocol: evInv(e, old(e.stackTop)) && ($lastOut == nil || $lastOut == errContinue)
 //@   loop 4 invariant protocol: evInv(e, old(e.stackTop))
 //@   loop 5 invariant protocol: evInv(e, old(e.stackTop)) && fresh(keys)
 //@   loop 6 invariant protocol: evInv(e, old(e.stackTop))
 //@   loop 7 invariant protocol: evInv(e, old(e.stackTop))
 
-//@ func Evaluator.evalExprList [C01,C08,C11]
+//@ func Evaluator.evalExprList [C01,C08,C09,C11]
 //@   modifies valueHeap, e.stackTop, e.returnVal
 //@   requires evOK(e) && !$faulted
 //@   updates $faulted, $out
@@ -517,6 +538,8 @@ package lang
 //@   ensures[C11] fault-latched: $faulted <==> isFault(err)
 //@   ensures evok: evOK(e)
 
+//@   ensures[C09] copies-live-in-fresh-cells: err == nil && copy ==> (forall k int :: 0 <= k && k < len(result0) ==> fresh(result0[k]))
+//@   loop 0 invariant[C09] copies-so-far-fresh: fresh(evaledExprs) && (copy ==> (forall k int :: 0 <= k && k <= rangeindex ==> fresh(evaledExprs[k])))
 //@   loop 0 invariant protocol: evInv(e, old(e.stackTop)) && len(evaledExprs) == rangeindex + 1
 
 //@ func Evaluator.evalUnaryExpr [C01,C05,C08,C11]
@@ -600,7 +623,17 @@ package lang
 //@   ensures evok: evOK(e)
 
 //@   after Evaluator.pushFrame: $frame = e.stackTop
-//@   loop 0 invariant protocol: evOK(e) && e.stackTop == $frame && $frame.parent == old(e.stackTop) && !$faulted
+//@   init $bodyRan = false
+//@   after Evaluator.evalStatement: $bodyRan = true
+//@   after Evaluator.evalStatement: $bodyOut = ret0
+//@   after Evaluator.evalStatement: $retVal = e.returnVal
+//@   ensures[C08] no-return-statement-yields-null: fn.Value.Tag == ValueFn && err == nil && $bodyRan && $bodyOut != errReturn ==> result0.Value.Tag == ValueNil && fresh(result0)
+//@   ensures[C08] return-without-value-yields-null: fn.Value.Tag == ValueFn && err == nil && $bodyRan && $bodyOut == errReturn && $retVal == nil ==> result0.Value.Tag == ValueNil && fresh(result0)
+//@   ensures[C08] return-value-is-yielded: fn.Value.Tag == ValueFn && err == nil && $bodyRan && $bodyOut == errReturn && $retVal != nil ==> fresh(result0) && result0.Value == *$retVal
+//@   ensures[C08] other-outcomes-propagate: fn.Value.Tag == ValueFn && $bodyRan && $bodyOut != nil && $bodyOut != errReturn ==> err == $bodyOut
+//@   assert[C08] body-runs-in-a-fresh-frame: e.stackTop == $frame && fresh(e.stackTop) && arg1 == fn.Value.Fn.Body @ Evaluator.evalStatement
+//@   loop 0 invariant protocol: evOK(e) && e.stackTop == $frame && $frame.parent == old(e.stackTop) && !$faulted && !$bodyRan
+//@   loop 0 invariant[C08] parameters-bound-by-position: forall k int :: 0 <= k && k <= rangeindex ==> has($frame.locals, fn.Value.Fn.Args[k]) && fresh($frame.locals[fn.Value.Fn.Args[k]])
 
 //@ func Evaluator.evalCaseMatch [C01,C08,C11,C19]
 //@   modifies valueHeap, e.stackTop, e.returnVal
@@ -739,7 +772,7 @@ package lang
 //@   requires evOK(e) && !$faulted
 //@   updates $faulted, $out
 //@   ensures[C01] errkind: result == nil || isRT(result) || isFlow(result)
-//@   ensures[C02] next-consumed: result != errNext
+//@   ensures[C01,C02] next-consumed: result != errNext
 //@   ensures[C08] stack-restored: stackKept(e, old(e.stackTop), result)
 //@   ensures[C11] fault-latched: $faulted <==> isFault(result)
 //@   ensures evok: evOK(e) && e.ruleRoot == old(e.ruleRoot)
@@ -750,7 +783,7 @@ package lang
 //@   requires e != nil && e.lexer != nil && frameOK(e.stackTop) && !$faulted
 //@   updates $faulted, $out
 //@   ensures[C01] errkind: result == nil || isRT(result) || isFlow(result)
-//@   ensures[C02] next-consumed: result != errNext
+//@   ensures[C01,C02] next-consumed: result != errNext
 //@   ensures[C08] stack-restored: stackKept(e, old(e.stackTop), result)
 //@   ensures[C11] fault-latched: $faulted <==> isFault(result)
 //@   loop 0 invariant protocol: e != nil && e.lexer != nil && frameOK(e.stackTop) && e.stackTop == old(e.stackTop) && !$faulted
@@ -815,7 +848,7 @@ package lang
 //@   modifies arg0.current, arg0.previous, arg0.didEndStatement, arg0.inLoop, arg0.inFunction, arg0.lexer.pos, arg0.lexer.tokenStart
 //@   ensures[C01] errkind: result1 == nil || isSyn(result1)
 //@   ensures[C01] node: result1 == nil ==> result0 != nil
-//@   ensures[C07] context-restored: arg0.inLoop == old(arg0.inLoop) && arg0.inFunction == old(arg0.inFunction)
+//@   ensures[C07,C11] context-restored: arg0.inLoop == old(arg0.inLoop) && arg0.inFunction == old(arg0.inFunction)
 //@   ensures ok: parserOK(arg0) && (result1 == nil ==> arg0.previous != nil)
 //@ functype parseRule.infix
 //@   requires parserOK(arg0) && arg1 != nil && has(arg0.rules, arg0.current.Tag) && arg0.rules[arg0.current.Tag].infix == thisfn()
@@ -823,7 +856,7 @@ package lang
 //@   modifies arg0.current, arg0.previous, arg0.didEndStatement, arg0.inLoop, arg0.inFunction, arg0.lexer.pos, arg0.lexer.tokenStart
 //@   ensures[C01] errkind: result1 == nil || isSyn(result1)
 //@   ensures[C01] node: result1 == nil ==> result0 != nil
-//@   ensures[C07] context-restored: arg0.inLoop == old(arg0.inLoop) && arg0.inFunction == old(arg0.inFunction)
+//@   ensures[C07,C11] context-restored: arg0.inLoop == old(arg0.inLoop) && arg0.inFunction == old(arg0.inFunction)
 //@   ensures ok: parserOK(arg0) && (result1 == nil ==> arg0.previous != nil)
 
 //@ func Parser.error [C01,C12]
@@ -860,26 +893,29 @@ package lang
 //@   modifies parserState
 //@   ensures ok: parserOK(p) && p.inLoop == old(p.inLoop) && p.inFunction == old(p.inFunction) && (old(p.previous) != nil ==> p.previous != nil)
 
-//@ func Parser.block [C01,C07]
+//@ func Parser.block [C01,C07,C13]
 //@   requires parserOK(p)
 //@   ensures previous: err == nil ==> p.previous != nil
+//@   ensures[C13] closing-brace-ends-the-statement: err == nil ==> p.didEndStatement
 //@   updates nothing
 //@   modifies parserState
 //@   ensures[C01] errkind: err == nil || isSyn(err)
-//@   ensures[C07] context-restored: p.inLoop == old(p.inLoop) && p.inFunction == old(p.inFunction)
+//@   ensures[C07,C11] context-restored: p.inLoop == old(p.inLoop) && p.inFunction == old(p.inFunction)
 //@   ensures ok: parserOK(p)
 //@   loop 0 invariant ok: parserOK(p) && p.inLoop == old(p.inLoop) && p.inFunction == old(p.inFunction) && p.previous != nil
 
-//@ func Parser.statement [C01,C07,C11]
+//@ func Parser.statement [C01,C07,C11,C13]
 //@   requires parserOK(p) && p.previous != nil
 //@   updates nothing
 //@   modifies parserState
 //@   ensures[C01] errkind: err == nil || isSyn(err)
 //@   ensures[C01] node: err == nil ==> result0 != nil
-//@   ensures[C07] context-restored: p.inLoop == old(p.inLoop) && p.inFunction == old(p.inFunction)
+//@   ensures[C07,C11] context-restored: p.inLoop == old(p.inLoop) && p.inFunction == old(p.inFunction)
 //@   ensures[C11] break-needs-loop: err == nil && (istype(result0, *StatementBreak) || istype(result0, *StatementContinue)) ==> old(p.inLoop)
 //@   ensures[C11] return-needs-function: err == nil && istype(result0, *StatementReturn) ==> old(p.inFunction)
 //@   assert[C11] loop-header-outside-loop-context: p.inLoop == old(p.inLoop) && p.inFunction == old(p.inFunction) @ Parser.expression
+//@   ensures[C13] bare-return-ends-its-statement: err == nil && istype(result0, *StatementReturn) && as(result0, *StatementReturn).Expr == nil ==> p.didEndStatement
+//@   ensures[C13] block-ends-its-statement: err == nil && istype(result0, *StatementBlock) ==> p.didEndStatement
 //@   ensures ok: parserOK(p)
 //@   ensures previous: err == nil ==> p.previous != nil
 
@@ -889,7 +925,7 @@ package lang
 //@   modifies parserState
 //@   ensures[C01] errkind: err == nil || isSyn(err)
 //@   ensures[C01] node: err == nil ==> result0 != nil
-//@   ensures[C07] context-restored: p.inLoop == old(p.inLoop) && p.inFunction == old(p.inFunction)
+//@   ensures[C07,C11] context-restored: p.inLoop == old(p.inLoop) && p.inFunction == old(p.inFunction)
 //@   assert[C07] body-in-loop-context: p.inLoop @ Parser.statement
 //@   ensures ok: parserOK(p) && (err == nil ==> p.previous != nil)
 
@@ -898,7 +934,7 @@ package lang
 //@   updates nothing
 //@   modifies parserState
 //@   ensures[C01] errkind: err == nil || isSyn(err)
-//@   ensures[C07] context-restored: p.inLoop == old(p.inLoop) && p.inFunction == old(p.inFunction)
+//@   ensures[C07,C11] context-restored: p.inLoop == old(p.inLoop) && p.inFunction == old(p.inFunction)
 //@   ensures ok: parserOK(p) && (err == nil ==> p.previous != nil)
 //@   loop 0 invariant ok: parserOK(p) && p.inLoop == old(p.inLoop) && p.inFunction == old(p.inFunction) && p.previous != nil
 
@@ -908,7 +944,7 @@ package lang
 //@   modifies parserState
 //@   ensures[C01] errkind: err == nil || isSyn(err)
 //@   ensures[C01] node: err == nil ==> result0 != nil
-//@   ensures[C07] context-restored: p.inLoop == old(p.inLoop) && p.inFunction == old(p.inFunction)
+//@   ensures[C07,C11] context-restored: p.inLoop == old(p.inLoop) && p.inFunction == old(p.inFunction)
 //@   assert[C06] whole-expression-level: arg1 == PrecAssign @ Parser.expressionWithPrec
 //@   ensures ok: parserOK(p) && (err == nil ==> p.previous != nil)
 
@@ -922,7 +958,7 @@ package lang
 //@   ensures[C01] errkind: err == nil || isSyn(err)
 //@   ensures[C01] node: err == nil ==> result0 != nil
 //@   ensures[C06] stops-at-looser-operator: err == nil ==> precAt(p) < prec
-//@   ensures[C07] context-restored: p.inLoop == old(p.inLoop) && p.inFunction == old(p.inFunction)
+//@   ensures[C07,C11] context-restored: p.inLoop == old(p.inLoop) && p.inFunction == old(p.inFunction)
 //@   ensures ok: parserOK(p) && (err == nil ==> p.previous != nil)
 //@   loop 0 invariant ok: parserOK(p) && p.inLoop == old(p.inLoop) && p.inFunction == old(p.inFunction) && lhs != nil && p.previous != nil
 
@@ -931,15 +967,16 @@ package lang
 //@   updates nothing
 //@   modifies parserState
 //@   ensures[C01] errkind: err == nil || isSyn(err)
-//@   ensures[C07] context-restored: p.inLoop == old(p.inLoop) && p.inFunction == old(p.inFunction)
+//@   ensures[C07,C11] context-restored: p.inLoop == old(p.inLoop) && p.inFunction == old(p.inFunction)
 //@   ensures ok: parserOK(p) && (err == nil ==> p.previous != nil)
 //@   loop 0 invariant ok: parserOK(p) && p.inLoop == old(p.inLoop) && p.inFunction == old(p.inFunction)
 
-//@ func Parser.rewriteCompundAssingment [C01,C09]
+//@ func Parser.rewriteCompundAssingment [C01,C09,C12]
 //@   requires p != nil && left != nil && right != nil && (opToken.Tag == PlusEqual || opToken.Tag == MinusEqual || opToken.Tag == MultiplyEqual || opToken.Tag == DivideEqual)
 //@   updates nothing
 //@   modifies nothing
 //@   ensures[C01] node: err == nil && result0 != nil
+//@   ensures[C12] operator-keeps-its-position: as(as(result0, *ExprBinary).Right, *ExprBinary).OpToken.Pos == opToken.Pos && as(result0, *ExprBinary).OpToken.Pos == opToken.Pos
 //@   ensures[C09] desugars-to-assignment: istype(result0, *ExprBinary) && as(result0, *ExprBinary).Left == left && as(result0, *ExprBinary).OpToken.Tag == Equal && istype(as(result0, *ExprBinary).Right, *ExprBinary) && as(as(result0, *ExprBinary).Right, *ExprBinary).Left == left && as(as(result0, *ExprBinary).Right, *ExprBinary).Right == right && as(as(result0, *ExprBinary).Right, *ExprBinary).OpToken.Tag == (opToken.Tag == PlusEqual ? Plus : (opToken.Tag == MinusEqual ? Minus : (opToken.Tag == MultiplyEqual ? Multiply : Divide)))
 
 //@ func Parser.parseRule [C01,C02,C11]
@@ -947,7 +984,7 @@ package lang
 //@   updates nothing
 //@   modifies parserState
 //@   ensures[C01] errkind: err == nil || isSyn(err)
-//@   ensures[C07] context-restored: p.inLoop == old(p.inLoop) && p.inFunction == old(p.inFunction)
+//@   ensures[C07,C11] context-restored: p.inLoop == old(p.inLoop) && p.inFunction == old(p.inFunction)
 //@   ensures ok: parserOK(p)
 
 //@ func Parser.parseFunction [C01,C07,C11]
@@ -955,7 +992,7 @@ package lang
 //@   updates nothing
 //@   modifies parserState
 //@   ensures[C01] errkind: err == nil || isSyn(err)
-//@   ensures[C07] context-restored: p.inLoop == old(p.inLoop) && p.inFunction == old(p.inFunction)
+//@   ensures[C07,C11] context-restored: p.inLoop == old(p.inLoop) && p.inFunction == old(p.inFunction)
 //@   assert[C07] body-in-function-context: p.inFunction @ Parser.block
 //@   ensures ok: parserOK(p)
 //@   loop 0 invariant ok: parserOK(p) && p.inLoop == old(p.inLoop) && p.inFunction
